@@ -23,7 +23,7 @@ fn script_p(resume: &str, pulse: bool) -> String {
 fn script(resume: &str) -> String {
     let r = if resume == "tail" { String::new() } else { format!("  resume_from: \"{}\"\n", resume) };
     format!(
-        "$env.n = 0\n\ndef --env bump [] {{\n  $env.n = $env.n + 1\n  $env.n\n}}\n\n{{\n{}  run: {{|frame|\n    let n = (bump)\n    if $frame.topic == \"g.out\" {{ null | .append relay --meta $frame.meta }}\n    {{n: $n, t: $frame.topic}}\n  }}\n}}",
+        "$env.n = 0\n\ndef --env bump [] {{\n  $env.n = $env.n + 1\n  $env.n\n}}\n\n{{\n{}  run: {{|frame|\n    let n = (bump)\n    if $frame.topic == \"slowpre\" {{ sleep 40ms }}\n    if $frame.topic == \"g.out\" {{ null | .append relay --meta $frame.meta }}\n    {{n: $n, t: $frame.topic}}\n  }}\n}}",
         r
     )
 }
@@ -40,11 +40,21 @@ pub fn run_case(case: &Value) -> (Vec<F>, String) {
     let second = case["second_handler"].as_bool().unwrap();
     let burst = case["burst"].as_u64().unwrap() as usize;
     let label = case.to_string();
+    // slow replay: a 2-slot delivery buffer and a closure that takes 40 ms per historical frame
+    // keep the replay going while the burst is appended (the frames of the burst are then older
+    // than the threshold marker of the subscription and still have to be processed)
+    let slow = case["slow_replay"].as_bool().unwrap_or(false);
+    xs::verif::set_caps(None, if slow { Some(2) } else { None });
     let w = World::start(Serve { handlers: true, ..Default::default() });
     let ctx = w.ctx_a;
     let other = w.ctx_b;
     // pre-history
     let p0 = w.append_c("pre0", ctx, None, None);
+    if slow {
+        for _ in 0..6 {
+            w.append_c("slowpre", ctx, None, None);
+        }
+    }
     let pre_other = w.append_c("pre-other", other, None, None);
     if old_instance {
         // an earlier instance of the same name: its registration traffic and its output are history
@@ -222,6 +232,7 @@ pub fn run_case(case: &Value) -> (Vec<F>, String) {
     }
     let outcome = format!("{}:{}:{}", resume, seen.len(), thresholds);
     w.stop();
+    xs::verif::set_caps(None, None);
     (fs, outcome)
 }
 
@@ -247,6 +258,11 @@ pub fn cases(thorough: bool) -> Vec<Value> {
                     }
                 }
             }
+        }
+    }
+    for resume in ["head", "after"] {
+        for burst in [1usize, 3] {
+            v.push(json!({"resume": resume, "old_instance": false, "second_handler": false, "burst": burst, "slow_replay": true, "eph": burst == 3}));
         }
     }
     v
@@ -298,7 +314,7 @@ pub fn run(tier: &str, report: &mut Report) {
     report.cov("distinct_outcomes", json!(outcomes.len()));
     report.cov("exhaustive", json!(true));
     report.cov("samples", json!(cs.iter().step_by((cs.len() / 4).max(1)).take(4).collect::<Vec<_>>()));
-    report.cov("explanation", json!("resume mode (tail / head / after-id) x pre-history with or without an earlier instance of the same name (its registration traffic and output) x a second handler in the same context x bursts of 0/1/3 frames (durable, optionally mixed with ephemeral ones) from two writers into the handler's context and another context while the handler is busy x the after-id resume point (oldest frame / newest frame before registration / the very last frame / an id that belongs to another context); a frame carrying another handler's stamp is always part of the history; the handler answers every frame with a per-instance counter, so its outputs give the complete invocation sequence, which is compared with the context's stream after the resume point minus own outputs and stale registration traffic. The interleaving of the burst with the handler is the OS's; the schedule dimension of the underlying stream is decided by C03 (all interleavings) and the start-up race by C16."));
+    report.cov("explanation", json!("resume mode (tail / head / after-id) x pre-history with or without an earlier instance of the same name (its registration traffic and output) x a second handler in the same context x bursts of 0/1/3 frames (durable, optionally mixed with ephemeral ones) from two writers into the handler's context and another context while the handler is busy x the after-id resume point (oldest frame / newest frame before registration / the very last frame / an id that belongs to another context); a frame carrying another handler's stamp is always part of the history; slow-replay cases (2-slot delivery buffer, 40 ms per historical frame) in which the burst is appended while the replay is still running; the handler answers every frame with a per-instance counter, so its outputs give the complete invocation sequence, which is compared with the context's stream after the resume point minus own outputs and stale registration traffic. The interleaving of the burst with the handler is the OS's; the schedule dimension of the underlying stream is decided by C03 (all interleavings) and the start-up race by C16."));
 }
 
 pub fn replay(v: &Value) -> i32 {
